@@ -94,6 +94,15 @@ ObsInit == [
   lastdoc  |-> [v \in VB |-> ""],         \* kind of the accepted document event whose push has not returned yet
   nreb     |-> 0,                         \* completed rebalances
   sminfo   |-> <<1, 1>>,                  \* membership the current session was opened with
+  \* ---- rollback mitigation (C07) -----------------------------------------------------
+  gate     |-> FALSE,                     \* rollback mitigation is switched on
+  tab      |-> [v \in VB |-> <<>>],       \* per copy of v listed in the cluster map: the last persistence report
+  best     |-> [v \in VB |-> 0],          \* highest seqno that all listed copies have ever reported together under one vbUUID
+  gwait    |-> [v \in VB |-> 0 - 1],      \* seqno of the event handed to the observer while the gate was on (-1: none)
+  padv     |-> [v \in VB |-> 0 - 1],      \* C05 obligation of that event, due when it takes effect
+  psess    |-> [v \in VB |-> 0 - 1],      \* position that event settles when it takes effect (-1: none)
+  pdead    |-> [v \in VB |-> FALSE],      \* ... on a stream the library had already closed
+  lthr     |-> [v \in VB |-> 0],          \* threshold the observer exposed last
   viol     |-> {}
 ]
 
@@ -118,7 +127,9 @@ ApBoot(o, e) ==
             !.kcnt = [v \in VB |-> <<0, 0, 0>>], !.lastdoc = [v \in VB |-> ""],
             !.up = TRUE, !.boots = @ + 1, !.saves = {}, !.closing = FALSE, !.mustdie = FALSE,
             !.streaming = [v \in VB |-> FALSE], !.inpush = [v \in VB |-> FALSE], !.range = {},
-            !.adv = [v \in VB |-> 0 - 1], !.conf = [v \in VB |-> StoreSeq(o, v)], !.news = FALSE, !.owned = {}]
+            !.adv = [v \in VB |-> 0 - 1], !.conf = [v \in VB |-> StoreSeq(o, v)], !.news = FALSE, !.owned = {},
+            !.gate = FALSE, !.tab = [v \in VB |-> <<>>], !.best = [v \in VB |-> 0], !.gwait = [v \in VB |-> 0 - 1],
+            !.padv = [v \in VB |-> 0 - 1], !.psess = [v \in VB |-> 0 - 1], !.pdead = [v \in VB |-> FALSE], !.lthr = [v \in VB |-> 0]]
 
 ApDied(o, e) == [o EXCEPT !.up = FALSE, !.mustdie = FALSE]
 
@@ -193,12 +204,64 @@ ApOpenRet(o, e) ==
   IF e.ok THEN [o EXCEPT !.uuid[v] = e.uuid, !.catchF[v] = IF e.rollback THEN e.f ELSE 0 - 1]
   ELSE [o EXCEPT !.streaming[v] = FALSE, !.mustdie = IF o.phase \in {"st1", "re2"} THEN TRUE ELSE @]
 
+\* ---- C07 ---------------------------------------------------------------------------------------------------
+\* the largest s such that every listed copy has reported, under one common vbUUID, a persisted seqno >= s (0: none)
+Listed(t) == {i \in DOMAIN t : ~t[i].absent}
+CommonMin(t) ==
+  IF Listed(t) = {} THEN 0
+  ELSE LET u == t[CHOOSE i \in Listed(t) : TRUE].uuid IN
+       IF \E i \in Listed(t) : t[i].uuid # u THEN 0
+       ELSE CHOOSE m \in {t[i].seq : i \in Listed(t)} : \A i \in Listed(t) : t[i].seq >= m
+MonGateSeq(x) == IF x.k = "mark" THEN x.s ELSE x.q
+
+\* any settlement while saves are in flight makes them non-idle
+Touch(o) == [o EXCEPT !.saves = {[s EXCEPT !.idle = FALSE] : s \in @}, !.news = TRUE]
+\* nothing that may go is left waiting (the harness lets the library run to a standstill before it looks)
+GateIdle(o) ==
+  Check(o, \A v \in VB : ~(o.gwait[v] >= 0 /\ (o.gwait[v] <= o.best[v] \/ o.closeReturned \/ o.stoppedSeen)), "C07",
+        "an event is still waiting although the threshold covers it / its stream is closed (lost wake-up)")
+ApRmSwitch(o, e) ==
+  [(IF e.on THEN o ELSE GateIdle(o)) EXCEPT !.gate = e.on,
+            !.tab = IF e.on THEN [v \in VB |-> IF o.tab[v] = <<>> THEN [i \in 1..e.slots |-> [uuid |-> 0, seq |-> 0, absent |-> FALSE]] ELSE o.tab[v]]
+                    ELSE @]
+ApReport(o, e) ==
+  LET t == [o.tab[e.vb] EXCEPT ![e.slot] = [uuid |-> e.uuid, seq |-> e.seq, absent |-> FALSE]]
+      m == CommonMin(t)
+  IN  [o EXCEPT !.tab[e.vb] = t, !.best[e.vb] = IF m > @ THEN m ELSE @]
+ApAbsent(o, e) == [o EXCEPT !.tab[e.vb][e.slot].absent = TRUE]
+\* something of the event in flight became visible (delivery / tracked position)
+GateCheck(o, v, q) ==
+  IF o.gwait[v] >= 0 /\ q >= o.gwait[v] /\ o.gwait[v] > o.best[v]
+  THEN Viol(o, "C07", "an event took effect before every listed copy had reported its seqno as persisted under one vbUUID")
+  ELSE o
+
+\* an event handed over while the gate is on settles its position only when the library lets it take effect (the tracked
+\* position moves: Track); until then what ApSent recorded as settled is held back
+ApGateSent(o, o1, e) ==
+  LET v == e.vb IN
+  IF ~o.gate THEN o1
+  ELSE [o1 EXCEPT !.adv[v] = o.adv[v], !.sess[v] = o.sess[v], !.ever[v] = o.ever[v],
+                  !.padv[v] = IF o1.adv[v] # o.adv[v] THEN o1.adv[v] ELSE 0 - 1,
+                  !.psess[v] = IF o1.sess[v] # o.sess[v] \/ o1.ever[v] # o.ever[v] THEN e.e.q ELSE 0 - 1,
+                  !.pdead[v] = o1.sess[v] = o.sess[v]]
+GateApply(o, v, q) ==
+  IF o.psess[v] < 0 \/ q # o.psess[v] THEN o
+  ELSE LET o1 == [o EXCEPT !.ever[v] = @ \cup {q}, !.sess[v] = IF o.pdead[v] THEN @ ELSE @ \cup {q},
+                           !.adv[v] = IF o.padv[v] > @ THEN o.padv[v] ELSE @, !.psess[v] = 0 - 1, !.padv[v] = 0 - 1]
+       IN  IF o.padv[v] >= 0 THEN Touch(o1) ELSE o1
+ApGateDone(o, e) ==
+  LET v == e.vb
+      o1 == IF o.gwait[v] >= 0 /\ o.gwait[v] > o.best[v] /\ ~o.closing /\ o.up
+            THEN Viol(o, "C07", "an event did not wait although not every listed copy had reported its seqno as persisted") ELSE o
+  IN  [o1 EXCEPT !.gwait[v] = 0 - 1, !.padv[v] = 0 - 1, !.psess[v] = 0 - 1]
+
 \* the server sent event e.e on the stream of e.vb (it is handed to the library)
 ApSent(o, e) ==
   LET v == e.vb
       x == e.e
       dead == o.closing \/ ~o.streaming[v]        \* the event arrives on a stream the library has closed / not requested
       o0 == [o EXCEPT !.inpush[v] = TRUE,
+                      !.gwait[v] = IF o.gate THEN MonGateSeq(x) ELSE 0 - 1,
                       !.high[v] = IF x.k # "mark" /\ @ >= 0 /\ x.q > @ THEN x.q ELSE @]   \* the server has reached x.q
   IN
   IF x.k = "mark" THEN [o0 EXCEPT !.snap[v] = <<x.s, x.e>>]
@@ -273,8 +336,6 @@ ApAck(o, e) ==
             \* (a reserved-key event may have moved the position past it without flagging it for saving, C14)
             !.adv[v] = IF v \in o.range /\ e.off.seq > @ /\ e.off.seq > MaxOr(o.sess[v], 0 - 1) THEN e.off.seq ELSE @]
 
-\* any settlement while saves are in flight makes them non-idle
-Touch(o) == [o EXCEPT !.saves = {[s EXCEPT !.idle = FALSE] : s \in @}, !.news = TRUE]
 
 \* Save()/Commit() was called by thread e.t
 ApSaveCall(o, e) ==
@@ -440,7 +501,7 @@ ApQuiesced(o, e) ==
             THEN Viol(o1, "C12", "every assigned vBucket stream ended for good but the client did not stop") ELSE o1
       o3 == IF o.closeCalled \/ o.stoppedSeen
             THEN Check(o2, o.closeReturned, "C13", "Close() did not return although nothing was pending any more") ELSE o2
-  IN  o3
+  IN  IF o.up THEN GateIdle(o3) ELSE o3
 
 ApDiedLife(o, e) ==
   IF o.closeCalled /\ ~o.closeReturned THEN Viol(o, "C13", "the client crashed inside Close()") ELSE o
@@ -463,7 +524,10 @@ ApState(o, e) ==
             THEN Check(o3, e.active = Cardinality(o.range \ o.ended), "C12",
                        "active-stream count differs from the number of assigned vBuckets not finally ended")
             ELSE o3
-  IN  Check(o4, ~o.mustdie, "C15", "the client kept running after a fail-stop condition")
+      o5 == Check(o4, ~o.mustdie, "C15", "the client kept running after a fail-stop condition")
+      o6 == Check(o5, \A v \in VB : e.thr[v] <= o.best[v], "C07", "the threshold of a stream is ahead of what the listed copies reported")
+      o7 == Check(o6, \A v \in VB : e.thr[v] >= o.lthr[v], "C07", "the threshold of a stream decreased")
+  IN  [o7 EXCEPT !.lthr = e.thr]
 
 Apply(o, e) ==
   CASE e.ev = "Boot"       -> ApBoot(o, e)
@@ -482,10 +546,13 @@ Apply(o, e) ==
     [] e.ev = "Load"       -> ApLoad(o, e)
     [] e.ev = "OpenReq"    -> ApOpenReq(o, e)
     [] e.ev = "OpenRet"    -> ApOpenRet(o, e)
-    [] e.ev = "Sent"       -> IF NonDocAdvance(e.e) THEN Touch(ApSent(o, e)) ELSE ApSent(o, e)
-    [] e.ev = "Pushed"     -> ApPushed(o, e)
-    [] e.ev = "Consume"    -> ApConsume(o, e)
-    [] e.ev = "Track"      -> ApTrack(o, e)
+    [] e.ev = "Sent"       -> ApGateSent(o, IF NonDocAdvance(e.e) THEN Touch(ApSent(o, e)) ELSE ApSent(o, e), e)
+    [] e.ev = "Pushed"     -> ApPushed(ApGateDone(o, e), e)
+    [] e.ev = "Consume"    -> LET o1 == ApConsume(GateCheck(o, e.vb, e.q), e) IN [o1 EXCEPT !.gwait[e.vb] = 0 - 1]
+    [] e.ev = "Track"      -> ApTrack(GateApply(GateCheck(o, e.vb, e.off.seq), e.vb, e.off.seq), e)
+    [] e.ev = "RmSwitch"   -> ApRmSwitch(o, e)
+    [] e.ev = "Report"     -> ApReport(o, e)
+    [] e.ev = "Absent"     -> ApAbsent(o, e)
     [] e.ev = "Ack"        -> Touch(ApAck(o, e))
     [] e.ev = "SaveCall"   -> ApSaveCall(o, e)
     [] e.ev = "SaveBegin"  -> ApSaveBegin(o, e)
